@@ -2,6 +2,7 @@ package ledger
 
 import (
 	"github.com/cosmos/iavl"
+	"github.com/rigochain/rigo-go/libs/verifhook"
 	"github.com/rigochain/rigo-go/types/xerrors"
 	tmdb "github.com/tendermint/tm-db"
 	"sort"
@@ -11,6 +12,7 @@ import (
 type FinalityLedger[T ILedgerItem] struct {
 	SimpleLedger[T]
 	finalityItems *memItems[T]
+	hookName      string
 
 	mtx sync.RWMutex
 }
@@ -33,6 +35,7 @@ func NewFinalityLedger[T ILedgerItem](name, dbDir string, cacheSize int, cb func
 				getNewItem:  cb,
 			},
 			finalityItems: newMemItems[T](),
+			hookName:      name,
 		}, nil
 	}
 }
@@ -156,6 +159,7 @@ func (ledger *FinalityLedger[T]) Commit() ([]byte, int64, xerrors.XError) {
 		if _, _, err := ledger.tree.Remove(vk[:]); err != nil {
 			return nil, -1, xerrors.From(err)
 		}
+		verifhook.TreeOp(ledger.hookName, false, vk[:])
 
 		// issue #58
 		// If SetFinality is called again (recreated) after calling DelFinality for the item,
@@ -186,11 +190,13 @@ func (ledger *FinalityLedger[T]) Commit() ([]byte, int64, xerrors.XError) {
 		} else if _, err := ledger.tree.Set(_key[:], bz); err != nil {
 			return nil, -1, xerrors.From(err)
 		}
+		verifhook.TreeOp(ledger.hookName, true, _key[:])
 	}
 
 	if r1, r2, err := ledger.tree.SaveVersion(); err != nil {
 		return r1, r2, xerrors.From(err)
 	} else {
+		verifhook.DurableWrite(ledger.hookName)
 		ledger.SimpleLedger.cachedItems.reset()
 		ledger.finalityItems.refresh()
 		return r1, r2, nil
